@@ -12,6 +12,7 @@
 import C4E.Minter
 import C4E.Distr1
 import C4E.Distributor
+import C4E.Props.C02
 namespace C4E.Props.C10
 open C4E
 
@@ -22,6 +23,16 @@ theorem mint_before_start_ok (p : Minter.Params) (st : Minter.St) (t : Int) (h :
 theorem mint_not_after_last_ok (p : Minter.Params) (st : Minter.St) (t : Int) (h1 : ¬ t < p.start) (h2 : st.last ≥ t) :
     Minter.beginBlock p st t = .ok { amount := 0, st := st, hist := [] } := by
   unfold Minter.beginBlock Minter.mint; rw [if_neg h1, if_pos h2]
+
+/-- **the minter never halts the chain**: for every parameter set accepted by validation (linear
+    periods spanning at least a millisecond), a genesis-like state and every strictly increasing
+    sequence of block times, every BeginBlocker call returns normally (no error, no panic) -/
+theorem minter_no_halt (raw : Minter.RawParams) (p : Minter.Params) (h : Minter.validate raw = some p)
+    (hs : Minter.Sane p.start p.minters) (st : Minter.St) (hg : C02.GenesisLike p st)
+    (ts : List Int) (hinc : ts.Pairwise (· < ·)) (hafter : ∀ t ∈ ts, p.start < t) :
+    ∃ as st', C02.runBlocks p st ts = some (as, st') := by
+  obtain ⟨as, st', h1, _, _⟩ := C02.path_independent p (C02.valid_of_validate raw p h hs) st hg ts hinc hafter
+  exact ⟨as, st', h1⟩
 
 /-- accepted parameters always carry a well-formed mint denom (D23) -/
 theorem validated_denom (raw : Minter.RawParams) (p : Minter.Params) (h : Minter.validate raw = some p) :
